@@ -79,6 +79,9 @@ pub enum Strategy {
     /// (base sampler bytes 0xff -> z0 = 0, sign byte = the bit, Bernoulli bytes 0 -> accept);
     /// honest afterwards
     Directed { bits: Vec<bool> },
+    /// sampler iteration i (i < values.len()) is accepted at once with the output values[i]
+    /// relative to floor(centre) (|value| <= 5): bytes[z0] are base-sampler bytes giving z0
+    ScriptSamples { values: Vec<i16>, bytes: Vec<[u8; 9]> },
 }
 
 impl Strategy {
@@ -95,6 +98,7 @@ impl Strategy {
             Strategy::ConstWindow { lo, hi, byte } => format!("const-window-{}-{}-{:02x}", lo, hi, byte),
             Strategy::PlantSamples { groups, .. } => format!("plant-{}-samples", groups),
             Strategy::Directed { bits } => format!("directed-{}-calls", bits.len()),
+            Strategy::ScriptSamples { values, .. } => format!("scripted-{}-samples", values.len()),
             Strategy::PlantPerCandidate { groups, every, .. } => format!("plant-{}-samples-every-{}-candidates", groups, every),
         }
     }
@@ -152,6 +156,7 @@ impl ScriptedRng {
             Strategy::ForcedSalt { .. } | Strategy::SharedWindow { .. } | Strategy::ConstWindow { .. } => false,
             Strategy::PlantSamples { groups, .. } => group < *groups,
             Strategy::Directed { bits } => (group as usize) < bits.len(),
+            Strategy::ScriptSamples { values, .. } => (group as usize) < values.len(),
             Strategy::PlantPerCandidate { groups, every, .. } => self.cand % *every == 1 % *every && (self.total_u32 - self.cand_start) / 17 < *groups,
         }
     }
@@ -219,6 +224,17 @@ impl ScriptedRng {
                 Strategy::ConstPrefix { byte, .. } => byte,
                 Strategy::CounterPrefix { .. } => self.total_u32 as u8,
                 Strategy::Honest | Strategy::ForcedSalt { .. } | Strategy::SharedWindow { .. } | Strategy::ConstWindow { .. } => honest as u8,
+                Strategy::ScriptSamples { values, bytes } => {
+                    let z = values[(self.total_u32 / 17) as usize];
+                    let (b, z0) = if z > 0 { (1u8, (z - 1) as usize) } else { (0u8, (-z) as usize) };
+                    if slot < 9 {
+                        bytes[z0.min(bytes.len() - 1)][slot as usize]
+                    } else if slot == 9 {
+                        b
+                    } else {
+                        0
+                    }
+                }
                 Strategy::Directed { bits } => {
                     let group = (self.total_u32 / 17) as usize;
                     if slot < 9 {
